@@ -125,29 +125,30 @@ inductive Ev where
 
 /-- one iteration of `while self._valid:` with `buff.tell() = pos`; `filesize` is the declared size.
     String-pool lookups (`self.sb[...]`) can only raise, which is a `stop`; they are not modelled. -/
-def doNextBody (f : List Nat) (filesize : Nat) (pos : Nat) (_ : Unit) : Iter Unit Ev :=
-  if pos = filesize then .stop .endDocument
+def doNextBody (f : List Nat) (filesize : Nat) (pos : Nat) (_ : Unit) : Iter Unit (Ev × Nat) :=
+  if pos = filesize then .stop (.endDocument, pos)
   else match arscHeader f pos with
-  | .error .parser => .stop .invalid
-  | .error .struct => .stop .raised
+  | .error .parser => .stop (.invalid, pos)
+  | .error .struct => .stop (.raised, pos)
   | .ok h =>
     if h.type = RES_XML_RESOURCE_MAP_TYPE then
-      if h.size < 8 ∨ h.size % 4 ≠ 0 then .stop .invalid
+      if h.size < 8 ∨ h.size % 4 ≠ 0 then .stop (.invalid, pos)
       else if h.after + 4 * ((h.size - h.hsize) / 4) ≤ f.length
-        then .next (h.after + 4 * ((h.size - h.hsize) / 4)) () else .stop .raised
+        then .next (h.after + 4 * ((h.size - h.hsize) / 4)) () else .stop (.raised, pos)
     else if h.type < RES_XML_FIRST_CHUNK_TYPE ∨ h.type > RES_XML_LAST_CHUNK_TYPE then
       .next (h.start + h.size) ()                      -- buff.seek(h.end)
     else if h.hsize ≠ 0x10 then .next (h.start + h.size) ()
-    else if f.length < h.after + 8 then .stop .raised    -- line number, comment index
+    else if f.length < h.after + 8 then .stop (.raised, pos)    -- line number, comment index
     else if h.type = RES_XML_START_NAMESPACE_TYPE ∨ h.type = RES_XML_END_NAMESPACE_TYPE then
-      if f.length < h.after + 16 then .stop .raised else .next (h.after + 16) ()
-    else if h.type = RES_XML_START_ELEMENT_TYPE then .stop .startTag
-    else if h.type = RES_XML_END_ELEMENT_TYPE then .stop .endTag
-    else if h.type = RES_XML_CDATA_TYPE then .stop .text
+      if f.length < h.after + 16 then .stop (.raised, pos) else .next (h.after + 16) ()
+    -- the three `break`s; after the loop `buff.seek(h.end)`: the second component
+    else if h.type = RES_XML_START_ELEMENT_TYPE then .stop (.startTag, h.start + h.size)
+    else if h.type = RES_XML_END_ELEMENT_TYPE then .stop (.endTag, h.start + h.size)
+    else if h.type = RES_XML_CDATA_TYPE then .stop (.text, h.start + h.size)
     else .next (h.start + h.size) ()
 
 /-- the chunk loop of one `_do_next` call started at `pos` -/
-def doNext (f : List Nat) (filesize pos : Nat) : Outcome Unit Ev :=
+def doNext (f : List Nat) (filesize pos : Nat) : Outcome Unit (Ev × Nat) :=
   run (doNextBody f filesize) f.length pos () 0
 
 /-! ### ARSCParser.__init__ chunk loops
@@ -216,19 +217,21 @@ def dbgLoop (f : List Nat) (pos op : Nat) := run (dbgBody f) (f.length + 1) pos 
 
 /-! ### HiddenApiClassDataItem -/
 
-/-- state: (offsets_size, i). `offset` is the item's start, `sectionSize` the declared size. -/
-def hiddenBody (f : List Nat) (offset sectionSize : Nat) (pos : Nat) (st : Nat × Nat) :
-    Iter (Nat × Nat) (Option (Nat × Nat)) :=
+/-- state: (offsets_size, i). `offset` is the item's start, `sectionSize` the declared size.
+    `offsets_size = (offset - 4) // 4` is a Python integer: an offset entry below 4 makes it negative
+    (floor division), which ends the loop at the next test `i >= offsets_size`. -/
+def hiddenBody (f : List Nat) (offset sectionSize : Nat) (pos : Nat) (st : Int × Nat) :
+    Iter (Int × Nat) (Option (Int × Nat)) :=
   if ¬ (pos - offset < sectionSize) then .stop (some (st.1, pos))     -- loop condition
-  else if st.1 ≠ 0 ∧ st.2 ≥ st.1 then .stop (some (st.1, pos))        -- break
+  else if st.1 ≠ 0 ∧ (st.2 : Int) ≥ st.1 then .stop (some (st.1, pos)) -- break
   else match u32 f pos with
     | none => .stop none                                             -- struct.error
     | some off =>
-      let os := if off ≠ 0 ∧ st.1 = 0 then (off - 4) / 4 else st.1
+      let os : Int := if off ≠ 0 ∧ st.1 = 0 then ((off : Int) - 4) / 4 else st.1
       .next (pos + 4) (os, st.2 + 1)
 
 def hiddenLoop (f : List Nat) (offset sectionSize : Nat) :=
-  run (hiddenBody f offset sectionSize) (f.length + 1) (offset + 4) (0, 0) 0
+  run (hiddenBody f offset sectionSize) (f.length + 1) (offset + 4) ((0 : Int), 0) 0
 
 /-! ### MapList: `for _ in range(size)`: read a 12-byte map item at `idx`, `seek(idx + 12)` -/
 
